@@ -118,6 +118,12 @@ CHECKS = {
   text="125 histories (quick): idle chain, every template (18 base + 3 governance flows) alone exported after settling and exported right after its block, a quarter (thorough: all) of ordered pairs, thorough: one chain of all templates. A's export is imported into a fresh Haqq by real InitChain + Commit, exported again and the two JSON documents are compared leaf by leaf (per module / field); 27 gRPC queries are compared on both nodes; each named module's exported state must pass its own ValidateGenesis; all invariants must hold on the imported node.",
   note="ibc 09-localhost latest_height is the exporting height by definition and is excluded from the equality. ValidateGenesis of third-party modules (ibc's connection-localhost) is not demanded.",
   design="DESIGN.md §3 C19"),
+ "C10": dict(
+  technique="explicit-state exploration: exhaustive enumeration of conversion sequences <= depth over five token pairs on the real msg servers and DeliverTx, backing invariants in every state and an exact-or-nothing step oracle",
+  engine="E1",
+  text="Fixture: one coin-origin pair (module-owned ERC20 deployed by RegisterCoin) and four ERC20-origin pairs: an honest ERC20MinterBurnerDecimals, the repository's ERC20MaliciousDelayed and ERC20DirectBalanceManipulation (deployed from their shipped bytecode and registered by RegisterERC20) and a synthesised token that emits Transfer(x, module, n) logs without moving balances. Every sequence <= 3 (thorough 4) over 57 operations: convertCoin / convertERC20 x {1, half, all, all+1}, ERC20 transfer to the module address (hook path), bank send of the paired denomination (wrapper), pair toggle, holder burn. In every state: coin-origin ERC20 supply <= escrowed coins and escrow - supply == holder burns; ERC20-origin coin supply <= tokens escrowed by the module. Every operation moves exactly the amount between the two representations or changes nothing.",
+  note="IBC receive / ack / timeout callbacks are not in the alphabet (no channel fixture). A transfer to the module address of a disabled pair is let through by design and only over-collateralises (observation).",
+  design="DESIGN.md §3 C10"),
 }
 
 PENDING = {}
